@@ -14,3 +14,17 @@ SCRIPTS = {}
 def script(f):
     SCRIPTS[f.__name__] = f
     return f
+
+
+@script
+def d12a_unclosed_two_run():
+    bad = False
+    for cls in (dn.DynGraph, dn.DynDiGraph):
+        g = cls()
+        g.add_interaction(0, 1, 3)
+        g.add_interaction(0, 1, 4)
+        ev = [(op, t) for _, _, op, t in g.stream_interactions()]
+        present = [t for t in range(2, 7) if g.has_interaction(0, 1, t)]
+        if present == [3, 4] and ('-', 5) not in ev:
+            bad = True
+    return bad
